@@ -9,6 +9,7 @@ import (
 	"net/http"
 	"net/url"
 	"sort"
+	"strconv"
 	"strings"
 
 	"github.com/getkin/kin-openapi/openapi3"
@@ -111,29 +112,50 @@ func ValidateRequest(ctx context.Context, input *RequestValidationInput) error {
 // appendToQueryValues adds to query parameters each value in the provided slice
 func appendToQueryValues[T any](q url.Values, parameterName string, v []T) {
 	for _, i := range v {
-		q.Add(parameterName, fmt.Sprint(i))
+		q.Add(parameterName, formatDefaultValue(i))
 	}
+}
+
+// formatDefaultValue renders a default value the way a client would serialise it:
+// numbers in plain decimal notation (a JSON default of 1000000 is the float64 1e+06), arrays comma-separated.
+func formatDefaultValue(value any) string {
+	switch v := value.(type) {
+	case float64:
+		return strconv.FormatFloat(v, 'f', -1, 64)
+	case float32:
+		return strconv.FormatFloat(float64(v), 'f', -1, 32)
+	case []any:
+		return joinValues(v, ",")
+	}
+	return fmt.Sprint(value)
 }
 
 func joinValues(values []any, sep string) string {
 	strValues := make([]string, 0, len(values))
 	for _, v := range values {
-		strValues = append(strValues, fmt.Sprint(v))
+		strValues = append(strValues, formatDefaultValue(v))
 	}
 	return strings.Join(strValues, sep)
 }
 
 // populateDefaultQueryParameters populates default values inside query parameters, while ensuring types are respected
-func populateDefaultQueryParameters(q url.Values, parameterName string, value any, explode bool) {
+func populateDefaultQueryParameters(q url.Values, parameterName string, value any, sm *openapi3.SerializationMethod) {
 	switch t := value.(type) {
 	case []any:
-		if explode {
+		if sm.Explode {
 			appendToQueryValues(q, parameterName, t)
 		} else {
-			q.Add(parameterName, joinValues(t, ","))
+			sep := ","
+			switch sm.Style {
+			case openapi3.SerializationSpaceDelimited:
+				sep = " "
+			case openapi3.SerializationPipeDelimited:
+				sep = "|"
+			}
+			q.Add(parameterName, joinValues(t, sep))
 		}
 	default:
-		q.Add(parameterName, fmt.Sprint(value))
+		q.Add(parameterName, formatDefaultValue(value))
 	}
 }
 
@@ -190,19 +212,19 @@ func ValidateParameter(ctx context.Context, input *RequestValidationInput, param
 				// Next check `parameter.Required && !found` will catch this.
 			case openapi3.ParameterInQuery:
 				q := req.URL.Query()
-				// an unset explode means the location's default (true for query parameters)
-				explode := true
-				if sm, err := parameter.SerializationMethod(); err == nil {
-					explode = sm.Explode
+				// an unset style / explode means the location's default (form, exploded for query parameters)
+				sm, err := parameter.SerializationMethod()
+				if err != nil {
+					sm = &openapi3.SerializationMethod{Style: openapi3.SerializationForm, Explode: true}
 				}
-				populateDefaultQueryParameters(q, parameter.Name, value, explode)
+				populateDefaultQueryParameters(q, parameter.Name, value, sm)
 				req.URL.RawQuery = q.Encode()
 			case openapi3.ParameterInHeader:
-				req.Header.Add(parameter.Name, fmt.Sprint(value))
+				req.Header.Add(parameter.Name, formatDefaultValue(value))
 			case openapi3.ParameterInCookie:
 				req.AddCookie(&http.Cookie{
 					Name:  parameter.Name,
-					Value: fmt.Sprint(value),
+					Value: formatDefaultValue(value),
 				})
 			}
 		}
